@@ -84,6 +84,20 @@ func TestReplay_kaitai_roundtrip(t *testing.T) {
 		// all sequences of length <= 2 plus the full list
 		var seqs [][][]byte
 		seqs = append(seqs, nil, recs)
+		// stored lengths on both sides of every varint group boundary up to four groups (incompressible content)
+		var sized [][]byte
+		for _, l := range []int{127, 128, 16383, 16384, 2097151, 2097152} {
+			b := make([]byte, l)
+			x := uint32(l)*2654435761 + 1
+			for i := range b {
+				x ^= x << 13
+				x ^= x >> 17
+				x ^= x << 5
+				b[i] = byte(x)
+			}
+			sized = append(sized, b)
+		}
+		seqs = append(seqs, append(sized, []byte("z")))
 		for _, a := range recs {
 			seqs = append(seqs, [][]byte{a})
 			for _, b := range recs {
